@@ -508,6 +508,33 @@ theorem reorder_detected (c : CryptoOps) (key : Bytes) (pre seg : List PItem) (s
   · rw [hb]; exact hnc
   · left; exact hk
 
+/-- **The same for a WHOLE chain including its last entry**, after which the producer restarts: the log
+lines do not depend on the restart flag of the last item, so `reorder_detected` applies to the run with
+that flag cleared. The first displaced position is reported as an offset `n` into the chain. -/
+theorem reorder_chain_detected (c : CryptoOps) (key : Bytes) (pre init : List PItem) (l : PItem) (seg' : List Entry) (rest : List Line)
+    (hres : ∀ it ∈ pre, it.resetAfter = true → it.isEnd = true)
+    (hchain : ∀ m ∈ init, m.resetAfter = false)
+    (hperm : seg'.Perm (produce c key (pstate c key pre) (init ++ [l])))
+    (hne : seg' ≠ produce c key (pstate c key pre) (init ++ [l]))
+    (hyp : ReorderHyp c key pre (init ++ [{ l with resetAfter := false }])) :
+    ∃ n, n ≤ init.length ∧
+      verify c key (honestLines c key pre ++ seg'.map Line.entry ++ rest) = .fail (pre.length + n) .mismatch := by
+  have hprod : produce c key (pstate c key pre) (init ++ [l]) =
+      produce c key (pstate c key pre) (init ++ [{ l with resetAfter := false }]) := by
+    rw [produce_append, produce_append]
+    rfl
+  rw [hprod] at hperm hne
+  obtain ⟨x, a, y, e', r', hs, _, _, hv⟩ := reorder_detected c key pre (init ++ [{ l with resetAfter := false }]) seg' rest hres
+    (by
+      intro m hm
+      rcases List.mem_append.mp hm with h | h
+      · exact hchain m h
+      · simp at h; subst h; rfl)
+    hperm hne hyp
+  refine ⟨x.length, ?_, hv⟩
+  have := congrArg List.length hs
+  simp at this
+  omega
 /-- **A duplicated entry is detected at the copy, wherever the original stands inside or at the end of a
 chain** (copy placed right after the original, which is not the first entry of its chain; it may be the
 last one: the verifier keeps the calculator one step on until it sees `chain=new`). The first entry of a
@@ -754,6 +781,23 @@ example : ∃ n, verify toyOps [1] (honestLines toyOps [1] [⟨[10], false, fals
       (toy_reorderHyp [1] _ _ (by intro it h; simp at h; subst h; simp)
         (by intro m h; simp at h; rcases h with rfl | rfl | rfl <;> rfl) (Or.inl (by decide)))
   exact ⟨_, h⟩
+
+/-- `reorder_chain_detected` on the whole FIRST chain of a log, exchanging its last two entries (the last
+one is the end-of-chain entry after which the producer restarts) -/
+example : ∃ n, n ≤ 2 ∧ verify toyOps [1] (honestLines toyOps [1] [] ++
+      [entryAt toyOps (Calc.new toyOps [1]) [12] false,
+       entryAt toyOps ((((Calc.new toyOps [1]).step toyOps [12]).1).step toyOps [13]).1 [14] true,
+       entryAt toyOps ((Calc.new toyOps [1]).step toyOps [12]).1 [13] false].map Line.entry ++ []) = .fail (0 + n) .mismatch :=
+  reorder_chain_detected toyOps [1] [] [⟨[12], false, false⟩, ⟨[13], false, false⟩] ⟨[14], true, true⟩ _ []
+    (by intro it h; cases h)
+    (by intro m h; simp at h; rcases h with rfl | rfl <;> rfl)
+    ((List.Perm.swap _ _ []).cons _)
+    (by
+      intro h
+      have := congrArg (fun l => l[1]?.map (·.data)) h
+      simp [produce_cons, entryAt] at this)
+    (toy_reorderHyp [1] _ _ (by intro it h; cases h)
+      (by intro m h; simp at h; rcases h with rfl | rfl | rfl <;> rfl) (Or.inr rfl))
 
 /-- the ratchet hypothesis holds for the toy instance -/
 example (k : Bytes) : toyOps.sha256 k ≠ k := by
